@@ -126,7 +126,9 @@ theorem toFields_type (a : Act) (r : RowFields) (h : toFields a = .ok r) :
 lists, header / amount dictionaries), exporting it to row fields and compiling those fields
 again yields exactly one action, equal to the original in all content (everything `render()`
 shows except the invented action / templating-instance uuid; group, sub-flow and template
-uuids included). -/
+uuids included).  Group actions: ANY number (≥ 1) of groups, see `Expressible` — `GroupsOk`:
+the uuids of the groups after the first must be the ones the sheet can give back
+(`action_roundtrip_mod_tail_uuids` is the statement without that clause). -/
 theorem action_roundtrip (a : Act) (h : Expressible a) :
     ∃ r, toFields a = .ok r ∧ ofFields r = .ok [a] := by
   have hrt := roundTrip_of_expressible a h
@@ -140,6 +142,137 @@ its own row if AND ONLY IF it is expressible — no clause of the predicate can 
 weakened, for any action (the `needs_…` theorems below are instances, replayed on the real code). -/
 theorem expressible_iff_roundtrip (a : Act) : Expressible a ↔ roundTrip a = .ok [a] :=
   ⟨roundTrip_of_expressible a, expressible_of_roundTrip a⟩
+
+/-! #### group actions with any number of groups
+
+`obj_id` is ONE cell: it carries the uuid of the first group.  Every group NAME travels
+(`mainarg_groups`), the groups after the first come back referenced by name, their uuid resolved
+through the container's dictionary (the first group's uuid under the first group's name, otherwise
+none = known elsewhere or invented).  So the round trip is exact up to those uuids, for every list. -/
+
+/-- what a group action comes back as — for EVERY non-empty group list, no hypothesis (induction
+over the list inside `resolve_rowGroups` / `recordedUuid_nameOnly`) -/
+theorem group_action_comes_back (g0 : GroupRef) (rest : List GroupRef) (all : Bool) :
+    roundTrip (.addGroups (g0 :: rest)) = .ok [.addGroups (backGroups g0 rest)] ∧
+    roundTrip (.removeGroups (g0 :: rest) all) = .ok [.removeGroups (backGroups g0 rest) false] :=
+  ⟨roundTrip_addGroups_eq g0 rest, roundTrip_removeGroups_eq g0 rest all⟩
+
+/-- **every group name comes back, in order**, whatever uuids / attributes the groups carry, as
+long as the groups after the first are named (a blank entry of the list cell is skipped) -/
+theorem group_names_roundtrip (g0 : GroupRef) (rest : List GroupRef) (all : Bool)
+    (h : ∀ g ∈ rest, g.name ≠ []) :
+    ∃ gs, roundTrip (.addGroups (g0 :: rest)) = .ok [.addGroups gs] ∧
+      roundTrip (.removeGroups (g0 :: rest) all) = .ok [.removeGroups gs false] ∧
+      gs.map (·.name) = (g0 :: rest).map (·.name) := by
+  refine ⟨backGroups g0 rest, roundTrip_addGroups_eq g0 rest, roundTrip_removeGroups_eq g0 rest all, ?_⟩
+  have hf : (rest.map (·.name)).filter (· ≠ []) = rest.map (·.name) := by
+    apply List.filter_eq_self.mpr
+    intro m hm
+    obtain ⟨g, hg, rfl⟩ := List.mem_map.mp hm
+    simpa using h g hg
+  simp only [backGroups, hf, List.map_cons, List.map_map, groupOf]
+  congr 1
+
+example : ∀ g ∈ [({ name := "B".toList, uuid := some "g-b".toList, attrs := true } : GroupRef)], g.name ≠ [] := by decide
+/-- the hypothesis is forced: a blank further name is skipped -/
+theorem needs_tail_name :
+    roundTrip (.addGroups [{ name := "A".toList }, { name := [] }, { name := "C".toList }]) =
+      .ok [.addGroups [{ name := "A".toList }, { name := "C".toList }]] := by decide
+
+theorem forget_eq_of_not_group (a b : Act) (ha : ∀ gs, a ≠ .addGroups gs) (ha' : ∀ gs all, a ≠ .removeGroups gs all)
+    (h : b.forgetTailUuids = a) : b = a := by
+  cases b with
+  | addGroups gs => exact absurd h.symm (ha _)
+  | removeGroups gs all => exact absurd h.symm (ha' _ _)
+  | _ => exact h
+
+/-- **Action round trip up to what `obj_id` cannot carry.**  `ExpressibleModTailUuids` = `Expressible`
+without the clause on the uuids of the groups after the first: exactly the actions that come back as ONE
+action equal to the original in everything except those uuids (all names, their order, the first group's
+uuid, `all_groups`; every other action kind: equal). -/
+theorem expressibleMod_iff_roundtrip (a : Act) :
+    ExpressibleModTailUuids a ↔ ∃ b, roundTrip a = .ok [b] ∧ b.forgetTailUuids = a.forgetTailUuids := by
+  have other : ∀ a : Act, (∀ gs, a ≠ .addGroups gs) → (∀ gs all, a ≠ .removeGroups gs all) → a.forgetTailUuids = a →
+      (Expressible a ↔ ∃ b, roundTrip a = .ok [b] ∧ b.forgetTailUuids = a.forgetTailUuids) := by
+    intro a h1 h2 hid
+    constructor
+    · intro h; exact ⟨a, roundTrip_of_expressible a h, rfl⟩
+    · rintro ⟨b, hb, he⟩
+      rw [hid] at he
+      rw [forget_eq_of_not_group a b h1 h2 he] at hb
+      exact expressible_of_roundTrip a hb
+  cases a with
+  | addGroups gs =>
+    cases gs with
+    | nil => simp [ExpressibleModTailUuids, GroupsOkModTailUuids, roundTrip, toFields, groupFields]
+    | cons g0 rest =>
+      rw [roundTrip_addGroups_eq]
+      constructor
+      · intro h
+        exact ⟨_, rfl, congrArg Act.addGroups (backGroups_forget g0 rest h)⟩
+      · rintro ⟨b, hb, he⟩
+        simp only [Except.ok.injEq, List.cons.injEq, and_true] at hb
+        subst hb
+        simp only [Act.forgetTailUuids, Act.addGroups.injEq] at he
+        exact groupsOkMod_of_forget g0 rest he
+  | removeGroups gs all =>
+    cases gs with
+    | nil => simp [ExpressibleModTailUuids, GroupsOkModTailUuids, roundTrip, toFields, groupFields]
+    | cons g0 rest =>
+      rw [roundTrip_removeGroups_eq]
+      constructor
+      · rintro ⟨h, hall⟩
+        subst hall
+        exact ⟨_, rfl, congrArg (Act.removeGroups · false) (backGroups_forget g0 rest h)⟩
+      · rintro ⟨b, hb, he⟩
+        simp only [Except.ok.injEq, List.cons.injEq, and_true] at hb
+        subst hb
+        simp only [Act.forgetTailUuids, Act.removeGroups.injEq] at he
+        exact ⟨groupsOkMod_of_forget g0 rest he.1, he.2.symm⟩
+  | sendMsg x0 x1 x2 x3 x4 x5 => exact other (.sendMsg x0 x1 x2 x3 x4 x5) (by intros; simp) (by intros; simp) rfl
+  | setContactField x0 x1 x2 x3 => exact other (.setContactField x0 x1 x2 x3) (by intros; simp) (by intros; simp) rfl
+  | setContactProp x0 x1 => exact other (.setContactProp x0 x1) (by intros; simp) (by intros; simp) rfl
+  | setContactChannel x0 x1 => exact other (.setContactChannel x0 x1) (by intros; simp) (by intros; simp) rfl
+  | setRunResult x0 x1 x2 => exact other (.setRunResult x0 x1 x2) (by intros; simp) (by intros; simp) rfl
+  | enterFlow x0 x1 => exact other (.enterFlow x0 x1) (by intros; simp) (by intros; simp) rfl
+  | callWebhook x0 x1 x2 x3 x4 => exact other (.callWebhook x0 x1 x2 x3 x4) (by intros; simp) (by intros; simp) rfl
+  | transferAirtime x0 x1 => exact other (.transferAirtime x0 x1) (by intros; simp) (by intros; simp) rfl
+  | addContactUrn x0 x1 => exact other (.addContactUrn x0 x1) (by intros; simp) (by intros; simp) rfl
+  | unsupported x0 => exact other (.unsupported x0) (by intros; simp) (by intros; simp) rfl
+
+theorem action_roundtrip_mod_tail_uuids (a : Act) (h : ExpressibleModTailUuids a) :
+    ∃ r b, toFields a = .ok r ∧ ofFields r = .ok [b] ∧ b.forgetTailUuids = a.forgetTailUuids := by
+  obtain ⟨b, hb, he⟩ := (expressibleMod_iff_roundtrip a).mp h
+  unfold roundTrip at hb
+  cases ht : toFields a with
+  | error e => rw [ht] at hb; cases hb
+  | ok r => rw [ht] at hb; exact ⟨r, b, rfl, hb, he⟩
+
+/-- **what remains lost, exactly**: an action comes back fully intact iff it comes back up to the
+uuids of the further groups AND those uuids are the ones the sheet gives back (`tailUuid`: none, or
+the first group's uuid for a further group with the first group's name) -/
+theorem expressible_iff_mod_and_tail_uuids (a : Act) :
+    Expressible a ↔ ExpressibleModTailUuids a ∧ a.TailUuidsKept := by
+  cases a with
+  | addGroups gs => exact Iff.rfl
+  | removeGroups gs all =>
+    show (GroupsOkModTailUuids gs ∧ ActionCodec.TailUuidsKept gs) ∧ all = false ↔
+      (GroupsOkModTailUuids gs ∧ all = false) ∧ ActionCodec.TailUuidsKept gs
+    constructor
+    · rintro ⟨⟨a, b⟩, c⟩; exact ⟨⟨a, c⟩, b⟩
+    · rintro ⟨⟨a, c⟩, b⟩; exact ⟨⟨a, b⟩, c⟩
+  | _ => exact ⟨fun h => ⟨h, trivial⟩, fun h => h.1⟩
+
+/-! non-vacuity: several groups, inside `Expressible` (further groups by name; a further group named
+like the first shares its uuid) and inside `ExpressibleModTailUuids` only (as RapidPro writes them:
+every group with its uuid) -/
+example : Expressible (.addGroups [{ name := "A".toList, uuid := some "g-a".toList }, { name := "B|;\\".toList },
+    { name := "A".toList, uuid := some "g-a".toList }, { name := "C".toList }]) := by decide
+example : Expressible (.removeGroups [{ name := "A".toList }, { name := "B".toList }] false) := by decide
+example : ExpressibleModTailUuids (.addGroups [{ name := "A".toList, uuid := some "g-a".toList },
+    { name := "B".toList, uuid := some "g-b".toList }]) ∧
+    ¬ Expressible (.addGroups [{ name := "A".toList, uuid := some "g-a".toList },
+    { name := "B".toList, uuid := some "g-b".toList }]) := by decide
 
 /-- the row of an exported action never makes a node-level action unless it is one -/
 theorem export_not_node_level :
@@ -259,14 +392,24 @@ theorem needs_no_channel_ref :
 theorem needs_a_group :
     roundTrip (.addGroups []) = .error .exportIndex ∧
     roundTrip (.removeGroups [] true) = .error .exportIndex := by decide
-/-- group actions, at most one group: LOSSY — every name is written, only the first is read (F-C04-g) -/
-theorem needs_one_group :
+/-- group actions, uuids of the groups after the first: LOSSY — `obj_id` carries the first group's uuid
+only; the others come back by name, without their uuid (what remains of F-C04-g) … -/
+theorem needs_tail_uuids_kept :
     roundTrip (.addGroups [{ name := "A".toList, uuid := some "g-a".toList },
                            { name := "B".toList, uuid := some "g-b".toList }]) =
-      .ok [.addGroups [{ name := "A".toList, uuid := some "g-a".toList }]] ∧
+      .ok [.addGroups [{ name := "A".toList, uuid := some "g-a".toList }, { name := "B".toList }]] ∧
     (toFields (.addGroups [{ name := "A".toList, uuid := some "g-a".toList },
-                           { name := "B".toList, uuid := some "g-b".toList }])).toOption.map (·.mainargGroups) =
-      some ["A".toList, "B".toList] := by decide
+                           { name := "B".toList, uuid := some "g-b".toList }])).toOption.map
+        (fun r => (r.mainargGroups, r.objId)) = some (["A".toList, "B".toList], "g-a".toList) := by decide
+/-- … and a further group named like the first takes the first one's uuid (one dictionary entry per name) -/
+theorem needs_tail_uuid_of_first_name :
+    roundTrip (.removeGroups [{ name := "A".toList, uuid := some "g-a".toList }, { name := "A".toList }] false) =
+      .ok [.removeGroups [{ name := "A".toList, uuid := some "g-a".toList },
+                          { name := "A".toList, uuid := some "g-a".toList }] false] := by decide
+/-- group actions, the groups after the first have no attributes either: lossy -/
+theorem needs_no_tail_group_attrs :
+    roundTrip (.addGroups [{ name := "A".toList }, { name := "B".toList, attrs := true }]) =
+      .ok [.addGroups [{ name := "A".toList }, { name := "B".toList }]] := by decide
 /-- group actions, uuid absent or non-empty: lossy (`""` reads as none) -/
 theorem needs_group_uuid :
     roundTrip (.addGroups [{ name := "A".toList, uuid := some [] }]) =
